@@ -15,6 +15,8 @@ def run(ctx, rep):
     for cfg, forbid in cfgs:
         crate = ctx.mir(cfg)['logos']
         rt.rule_frames(rep, crate, cfg)
+        rt.rule_bump(rep, crate, cfg)        # an in-range bump is accepted, an out-of-range one leaves the span untouched
+        rt.rule_is_boundary(rep, crate, cfg)
         rt.rule_accessor_operands(rep, crate, cfg, forbid)
         rt.rule_field_correspondence(rep, crate, cfg)
         rt.rule_spanned(rep, crate, cfg)
